@@ -3,11 +3,15 @@ package main
 // Generation of module directories for C20 and their materialisation on disk.
 
 import (
+	"bytes"
+	"encoding/hex"
+	"encoding/json"
 	"fmt"
 	"os"
 	"path/filepath"
 	"sort"
 	"strings"
+	"unicode/utf8"
 
 	"golang.org/x/mod/module"
 	"golang.org/x/tools/txtar"
@@ -19,6 +23,41 @@ import (
 type File struct {
 	Name string `json:"name"`
 	Data []byte `json:"data"`
+}
+
+// MarshalJSON / UnmarshalJSON: a member name that is not valid UTF-8 would be rewritten by
+// encoding/json (U+FFFD); it travels as name_hex so that a replay recreates the same bytes.
+func (f File) MarshalJSON() ([]byte, error) {
+	type plain struct {
+		Name    string `json:"name"`
+		NameHex string `json:"name_hex,omitempty"`
+		Data    []byte `json:"data"`
+	}
+	p := plain{Name: f.Name, Data: f.Data}
+	if !utf8.ValidString(f.Name) {
+		p.Name, p.NameHex = fmt.Sprintf("%q", f.Name), hex.EncodeToString([]byte(f.Name))
+	}
+	return json.Marshal(p)
+}
+
+func (f *File) UnmarshalJSON(b []byte) error {
+	var p struct {
+		Name    string `json:"name"`
+		NameHex string `json:"name_hex"`
+		Data    []byte `json:"data"`
+	}
+	if err := json.Unmarshal(b, &p); err != nil {
+		return err
+	}
+	f.Name, f.Data = p.Name, p.Data
+	if p.NameHex != "" {
+		n, err := hex.DecodeString(p.NameHex)
+		if err != nil {
+			return err
+		}
+		f.Name = string(n)
+	}
+	return nil
 }
 
 // Mod is one generated module version and the way it is laid out on disk.
@@ -51,7 +90,9 @@ type TestDir struct {
 	Probes []string `json:"probes,omitempty"`
 	// Big: a big module generated from a compact description (see big.go); Mods is empty then.
 	Big *BigSpec `json:"big,omitempty"`
-	idx int      // position in the run (stable key for the statistics)
+	// Many: a directory of modules with very many versions (see many.go); Mods is empty then.
+	Many *ManySpec `json:"many,omitempty"`
+	idx  int       // position in the run (stable key for the statistics)
 }
 
 func escPath(p string) (string, bool) {
@@ -210,9 +251,19 @@ func genVers(r *common.RNG, path string) (string, string) {
 
 var fileNames = []string{"go.mod", "x.go", "README", "LICENSE", "sub/y.go", "sub/deep/z.go", "sub/.hidden", "a/b/c/d.txt",
 	"Upper.go", "with space.txt", "doc/.keep", "z", "cmd/tool/main.go", "testdata/in.txt", "sub.go", "sub-x/a.go"}
-var dotNames = []string{".gitignore", ".hidden", ".github/workflows/ci.yml", ".x/y", "..double"}
+var dotNames = []string{".gitignore", ".hidden", ".github/workflows/ci.yml", ".x/y", "..double",
+	".netrc", ".env", ".info2", ".mod~", ".zip2", ".INFO", ".Mod", ".list", ".ziphash", ".info.bak", ".zip", ".txt", ".%s", ".lock"}
+
+// oddNames: archive member names with characters that formatting, quoting, URL or path handling
+// could mangle (the zip must carry them unchanged under path@version/).
+var oddNames = []string{"100%.txt", "%d.go", "a%20b/c.go", "%s/%v.txt", "back\\slash.txt", "tab\there", "ünï/cödé.go", "\xff\xfe.bin",
+	"dir with space/f g.txt", "at@sign.go", "plus+minus-.go", "three...dots", "trailing.dot.", "q?uery&x=1", "semi;colon", "#hash",
+	"quote\"s'.txt", "{brace}/[bracket]", "~tilde", "-- dash --", "long/" + strings.Repeat("n", 180) + ".go", "CR\rname", "nul-free\x01ctl"}
 
 func genData(r *common.RNG, tag string) []byte {
+	if r.Chance(1, 3) {
+		return nastyBytes(r)
+	}
 	switch r.Intn(8) {
 	case 0:
 		return []byte{}
@@ -227,11 +278,51 @@ func genData(r *common.RNG, tag string) []byte {
 	}
 }
 
+// nastyFragments: contents that a response path using formatting, string conversion, templating,
+// line handling or header sniffing would not return byte for byte.
+var nastyFragments = []string{
+	"%", "%%", "100% done, 50%v left\n", "%20b", "%s %d %v %!", "%!(EXTRA string=x)", "%[1]d %*d %-08.3f", "%!b(MISSING)", "trailing %",
+	"https://example.com/a%20b/%s?x=%d\n", "C:\\path\\new\\table\n", "\\n \\x00 \\\\", "\x00", "\x00\x01\x02\x7f", "\xff\xfe", "\xc3\x28", "\x80\xbf", "\xef\xbb\xbf",
+	"line one\r\nline two\r\n", "lone\rCR", "\r\n", "\n\n\n", "no final newline", "<html><script>alert(1)</script>", "&amp; &lt;", "{{.}} ${x} $(y)",
+	"\t tabs \t", "  leading and trailing  ", "\u00e9\u4e16\u754c\n", "\x1b[31mred\x1b[0m", "GET / HTTP/1.1\r\n\r\n", "PK\x03\x04", "\x1f\x8b\x08",
+}
+
+// nastyBytes: 1-4 fragments, sometimes a very long line or random bytes over the whole range.
+func nastyBytes(r *common.RNG) []byte {
+	var b []byte
+	if r.Chance(1, 12) {
+		return []byte{}
+	}
+	for i, n := 0, 1+r.Intn(4); i < n; i++ {
+		switch r.Intn(10) {
+		case 0:
+			b = append(b, bytes.Repeat([]byte(common.Pick(r, []string{"x", "%", "ab%d", "\\", "\xff"})), 1000+r.Intn(70000))...)
+		case 1, 2:
+			k := r.Intn(200)
+			for j := 0; j < k; j++ {
+				b = append(b, byte(r.Intn(256)))
+			}
+		default:
+			b = append(b, common.Pick(r, nastyFragments)...)
+		}
+	}
+	if r.Chance(1, 3) {
+		b = append(b, '\n')
+	}
+	return b
+}
+
 func genInfo(r *common.RNG, vers string, realistic bool) []byte {
 	if realistic {
 		return []byte(fmt.Sprintf("{\"Version\":%q,\"Time\":\"2018-02-03T04:05:06Z\"}\n", vers))
 	}
-	switch r.Intn(6) {
+	switch r.Intn(9) {
+	case 6:
+		return nastyBytes(r)
+	case 7:
+		return []byte(fmt.Sprintf("{\"Version\":%q,\"Origin\":{\"URL\":\"https://example.com/a%%20b/%%s\",\"Ref\":%q}}%s", vers, string(nastyBytes(r)), common.Pick(r, []string{"\n", "", "\r\n"})))
+	case 8:
+		return append([]byte(fmt.Sprintf("{\"Version\":%q,\"Short\":%q}", vers, strings.ToLower(common.Pick(r, hashes)))), nastyBytes(r)...)
 	case 0:
 		return []byte(fmt.Sprintf("{\"Version\":%q,\"Short\":%q}\n", vers, strings.ToLower(common.Pick(r, hashes))))
 	case 1:
@@ -253,17 +344,32 @@ func genMod(r *common.RNG, path, vers string) Mod {
 		m.Files = append(m.Files, File{".info", genInfo(r, vers, m.Realistic)})
 	}
 	if m.Realistic || r.Chance(9, 10) {
-		m.Files = append(m.Files, File{".mod", []byte("module " + path + "\n")})
+		mod := []byte("module " + path + "\n")
+		if !m.Realistic {
+			switch r.Intn(4) {
+			case 0: // any bytes at all
+				mod = nastyBytes(r)
+			case 1: // a go.mod with comments and replace paths that carry formatting verbs, CRLF, no final newline
+				mod = append(mod, []byte("\n// coverage: 100% done, 50%v left\nreplace example.com/x => ../a%20b/%s\r\n")...)
+				mod = append(mod, nastyBytes(r)...)
+			}
+		}
+		m.Files = append(m.Files, File{".mod", mod})
 	}
 	if m.Realistic {
 		m.Files = append(m.Files, File{"go.mod", []byte("module " + path + "\n")})
 	}
-	seen := map[string]bool{"go.mod": m.Realistic}
+	seen := map[string]bool{"go.mod": m.Realistic, ".info": true, ".mod": true}
 	n := r.Intn(6)
+	if !m.Realistic && r.Chance(1, 2) {
+		n += 1 + r.Intn(3)
+	}
 	for i := 0; i < n; i++ {
 		fn := common.Pick(r, fileNames)
-		if !m.Realistic && r.Chance(1, 5) {
+		if !m.Realistic && r.Chance(1, 4) {
 			fn = common.Pick(r, dotNames)
+		} else if !m.Realistic && r.Chance(1, 5) {
+			fn = common.Pick(r, oddNames)
 		}
 		if m.Realistic && (strings.Contains(fn, "/.") || strings.HasPrefix(fn, ".")) {
 			continue
@@ -289,7 +395,46 @@ func genMod(r *common.RNG, path, vers string) Mod {
 		r2 := r.Fork()
 		sort.SliceStable(m.Files, func(i, j int) bool { return r2.Bool() })
 	}
+	m.settle()
 	return m
+}
+
+// settle makes the intent of an archive-layout module what the archive file really stores: a
+// txtar member cannot hold every byte string (a line that looks like a marker would start a new
+// member, data without final newline gets one).  The member list is formatted and read back
+// with x/tools' txtar (the format's reference implementation); data that does not survive as ONE
+// member under the same name is defused first (marker-like lines are broken up), and the intent
+// becomes what the reference parser reads.  Directory layouts store any bytes as they are.
+func (m *Mod) settle() {
+	if m.Layout == "dir" {
+		return
+	}
+	for attempt := 0; attempt < 3; attempt++ {
+		a := &txtar.Archive{Comment: []byte("module " + m.Path + "@" + m.Vers + "\n\n")}
+		for _, f := range m.Files {
+			a.Files = append(a.Files, txtar.File{Name: f.Name, Data: f.Data})
+		}
+		p := txtar.Parse(txtar.Format(a))
+		ok := len(p.Files) == len(m.Files)
+		for i := 0; ok && i < len(p.Files); i++ {
+			ok = p.Files[i].Name == m.Files[i].Name
+		}
+		if ok {
+			for i := range p.Files {
+				m.Files[i].Data = p.Files[i].Data
+			}
+			return
+		}
+		for i := range m.Files {
+			d := bytes.ReplaceAll(m.Files[i].Data, []byte("-- "), []byte("-+ "))
+			d = bytes.ReplaceAll(d, []byte(" --"), []byte(" +-"))
+			m.Files[i].Data = d
+			m.Files[i].Name = strings.TrimSpace(strings.NewReplacer("\n", "N", "\r", "R").Replace(m.Files[i].Name))
+		}
+	}
+	// still not representable: fall back to a directory, which stores anything
+	m.Layout = "dir"
+	sort.SliceStable(m.Files, func(i, j int) bool { return m.Files[i].Name < m.Files[j].Name })
 }
 
 // genDir builds one clean directory with 1..4 modules, 1..4 versions each.
